@@ -5,6 +5,8 @@ pub fn evaluate_constexpr(
     expr: &ir::Expression,
     module: &mut ir::Module,
 ) -> Result<ir::Constant, ()> {
+    #[cfg(feature = "verif-hooks")]
+    rssl_text::verif::tick(17);
     Ok(match *expr {
         ir::Expression::Literal(ref v) => v.clone(),
         ir::Expression::Variable(id) => {
